@@ -4,7 +4,19 @@ share x cookie {none, 1, 255 bytes}) plus the invalid HRR selections of Mode c12
 import nego_common as nc, vlib
 
 def run(ctx):
-    scns, events, rej, unadv, mc = nc.run_nego(ctx, "c17", shards=8)
+    def partner(i):
+        return "Firefox-120" if i.startswith("Chrome") or i.startswith("Edge") else "Chrome-120"
+    def with_interleave(xs):
+        # the same HelloRetryRequests while another fingerprint is built on the same *Config between the first
+        # ClientHello and the server's answer (what the hello offered, not what a shared Config says now, is what counts)
+        seen, out = set(), list(xs)
+        for x in xs:
+            if (x["id"], x["group"], x.get("hrr_group", 0), x.get("force_group", 0)) in seen or x["hrr_cookie"] not in (0,):
+                continue
+            seen.add((x["id"], x["group"], x.get("hrr_group", 0), x.get("force_group", 0)))
+            out.append(dict(x, interleave_id=partner(x["id"])))
+        return out
+    scns, events, rej, unadv, mc = nc.run_nego(ctx, "c17", shards=8, subset=with_interleave)
     for r in rej:
         d = nc.sig_detail(r["detail"])
         s = r["scn"]
@@ -20,7 +32,7 @@ def run(ctx):
             ctx.finding("hrr-safety:%s:%s" % (d, s["id"]), "client went on after an invalid HelloRetryRequest: %s" % d, {"scenario": nc.scn_brief(s)})
     # invalid HRR selections (unoffered group, already shared group): from the adversarial grid
     def only_hrr(xs):
-        return [x for x in xs if x["hrr_group"] or (x["force_group"] and x["ver"] == 772)]
+        return with_interleave([x for x in xs if x["hrr_group"] or (x["force_group"] and x["ver"] == 772)])
     scns2, events2, rej2, _, _ = nc.run_nego(ctx, "c12", subset=only_hrr, shards=4)
     for r in rej2:
         d = nc.sig_detail(r["detail"])
